@@ -74,7 +74,73 @@ pub fn probe(rep: &mut Report, bytes: &[u8], class: &str) -> Probe {
         }
         Err(ab) => viol(rep, "panic", &format!("check_buffer:{}", ab.signature()), format!("check_buffer panics: {}", ab.describe()), bytes),
     }
+    if result.load_ok_strict || result.load_ok_lenient || hash_bytes(bytes) % 16 == 0 {
+        probe_file(rep, bytes, &result);
+    }
     result
+}
+
+fn find(hay: &[u8], needle: &[u8]) -> Option<usize> {
+    hay.windows(needle.len()).position(|w| w == needle)
+}
+
+fn outcome_text(r: &Result<(ArxmlFile, Vec<AutosarDataError>), AutosarDataError>) -> String {
+    match r {
+        Ok((f, w)) => format!("Ok text-hash={:x} warnings={:?}", f.serialize().map(|t| hash_bytes(t.as_bytes())).unwrap_or(0), w.iter().map(|x| x.to_string()).collect::<Vec<_>>()),
+        Err(e) => format!("Err {e}"),
+    }
+}
+
+/// the two file based entry points: `load_file` must behave like `load_buffer` on the file's bytes, `check_file`
+/// (which looks at the first 4096 bytes) must accept what loading accepts when the header lies inside that window
+fn probe_file(rep: &mut Report, bytes: &[u8], res: &Probe) {
+    thread_local! {
+        static PATH: std::path::PathBuf = {
+            let dir = crate::report::verif_root().join("harness").join("target").join("tmp");
+            let _ = std::fs::create_dir_all(&dir);
+            dir.join(format!("c02-{}-{:?}.arxml", std::process::id(), std::thread::current().id()).replace(['(', ')'], ""))
+        };
+    }
+    let path = PATH.with(|p| p.clone());
+    if std::fs::write(&path, bytes).is_err() {
+        rep.count("file_probe.write_failed", 1);
+        return;
+    }
+    rep.count("file_probe.files", 1);
+    for strict in [true, false] {
+        let from_file = crate::panicmon::catch(|| AutosarModel::new().load_file(&path, strict));
+        let from_buf = crate::panicmon::catch(|| AutosarModel::new().load_buffer(bytes, &path, strict));
+        match (from_file, from_buf) {
+            (Ok(a), Ok(b)) => {
+                let (ta, tb) = (outcome_text(&a), outcome_text(&b));
+                if ta != tb {
+                    viol(rep, "load_file-differs-from-load_buffer", if a.is_ok() == b.is_ok() { "same-verdict" } else { "other-verdict" }, format!("strict={strict}: load_file -> {}\n  load_buffer -> {}", crate::monitors::clip(&ta), crate::monitors::clip(&tb)), bytes);
+                }
+            }
+            (Err(ab), _) => viol(rep, "panic", &format!("load_file:{}", ab.signature()), format!("load_file(strict={strict}) panics: {}", ab.describe()), bytes),
+            (_, Err(_)) => {} // reported by probe()
+        }
+    }
+    match crate::panicmon::catch(|| check_file(&path)) {
+        Ok(ok) => {
+            let loadable = res.load_ok_strict || res.load_ok_lenient;
+            // where does the start tag of the root element end? (only decidable here without a parser when nothing
+            // that could contain the text "<AUTOSAR" precedes the root element)
+            let header_end = match find(bytes, b"<AUTOSAR") {
+                Some(p) if find(&bytes[..p], b"<!--").is_none() => bytes[p..].iter().position(|c| *c == b'>').map(|q| p + q + 1),
+                _ => None,
+            };
+            let visible = bytes.len() <= 4096 || header_end.is_some_and(|e| e <= 4096);
+            if loadable && visible {
+                rep.count("file_probe.check_file_owed", 1);
+                if !ok {
+                    viol(rep, "check_file-rejects-loadable-file", "", "load_file accepts the file and its header lies within the first 4096 bytes, but check_file returns false".into(), bytes);
+                }
+            }
+            let _ = ok;
+        }
+        Err(ab) => viol(rep, "panic", &format!("check_file:{}", ab.signature()), format!("check_file panics: {}", ab.describe()), bytes),
+    }
 }
 
 // ------------------------------------------------------------------------------------------------
